@@ -109,4 +109,86 @@ theorem srun_inv (ops : List Op) : ∀ (s : Sys), Inv s → (∀ o ∈ ops, o.di
 theorem init_inv (flag : Bool) : Inv { lock := { locked := if flag then some .flag else none } } := by
   cases flag <;> exact ⟨by simp [holderList], by simp, by simp⟩
 
+/-! ## any number of locks -/
+
+def MInv (s : MSys) : Prop := ∀ j v, s.proj j = some v → Inv v
+
+theorem filter_eq_after {bs : List (Task × Nat)} {j : Nat} {ts : List Task} :
+    ((bs.filter (·.2 ≠ j) ++ ts.map (·, j)).filter (·.2 = j)).map (·.1) = ts := by
+  rw [List.filter_append]
+  have h1 : (bs.filter (·.2 ≠ j)).filter (·.2 = j) = [] := by
+    rw [List.filter_filter]; apply List.filter_eq_nil_iff.mpr; intro a _; simp
+  have h2 : (ts.map (·, j)).filter (·.2 = j) = ts.map (·, j) := by
+    apply List.filter_eq_self.mpr; intro a ha; obtain ⟨t, _, rfl⟩ := List.mem_map.mp ha; simp
+  rw [h1, h2]; simp [List.map_map, Function.comp_def]
+
+theorem filter_ne_after {bs : List (Task × Nat)} {j k : Nat} {ts : List Task} (hk : k ≠ j) :
+    (bs.filter (·.2 ≠ j) ++ ts.map (·, j)).filter (·.2 = k) = bs.filter (·.2 = k) := by
+  rw [List.filter_append]
+  have h2 : (ts.map (·, j)).filter (·.2 = k) = [] := by
+    apply List.filter_eq_nil_iff.mpr; intro a ha; obtain ⟨t, _, rfl⟩ := List.mem_map.mp ha; simp; exact fun e => hk e.symm
+  rw [h2, List.append_nil, List.filter_filter]
+  apply List.filter_congr; intro a _; simp; intro h; rw [h]; exact hk
+
+theorem mstep_inv {s s' : MSys} {j : Nat} {o : Op} (h : MInv s) (hd : o.disciplined = true)
+    (hs : mstep s j o = some s') : MInv s' := by
+  have hgo : mstep.go s j o = some s' := by
+    simp only [mstep] at hs
+    split at hs
+    · split at hs
+      · cases hs
+      · exact hs
+    · exact hs
+  simp only [mstep.go] at hgo
+  cases hp : s.proj j with
+  | none => simp [hp] at hgo
+  | some v =>
+    simp only [hp] at hgo
+    cases hv : sstep v o with
+    | none => simp [hv] at hgo
+    | some v' =>
+      simp only [hv] at hgo
+      cases hgo
+      have hinv' : Inv v' := sstep_inv (h j v hp) hd hv
+      have hlt : j < s.locks.length := by
+        simp only [MSys.proj] at hp
+        rcases hl : s.locks[j]? with _ | l
+        · simp [hl] at hp
+        · rcases Nat.lt_or_ge j s.locks.length with h' | h'
+          · exact h'
+          · rw [List.getElem?_eq_none h'] at hl; cases hl
+      intro k w hw
+      simp only [MSys.proj] at hw
+      by_cases hk : k = j
+      · subst hk
+        simp only [List.getElem?_set, hlt, if_true, Option.map_some] at hw
+        cases hw
+        rw [filter_eq_after]
+        exact hinv'
+      · have hne : j ≠ k := fun e => hk e.symm
+        rw [List.getElem?_set] at hw
+        simp only [hne, if_false] at hw
+        rw [filter_ne_after hk] at hw
+        exact h k w (by simpa [MSys.proj] using hw)
+
+theorem mrun_inv (ops : List (Nat × Op)) : ∀ (s : MSys), MInv s → (∀ p ∈ ops, p.2.disciplined = true) →
+    MInv (mrun s ops) := by
+  induction ops with
+  | nil => intro s h _; exact h
+  | cons p os ih =>
+    intro s h hd
+    obtain ⟨j, o⟩ := p
+    simp only [mrun]
+    cases hs : mstep s j o with
+    | none => simpa using ih s h (fun p' hp' => hd p' (List.mem_cons_of_mem _ hp'))
+    | some s' =>
+      exact ih s' (mstep_inv h (hd (j, o) List.mem_cons_self) hs) (fun p' hp' => hd p' (List.mem_cons_of_mem _ hp'))
+
+theorem minit_inv (flags : List Bool) : MInv (minit flags) := by
+  intro j v hv
+  simp only [MSys.proj, minit, List.getElem?_map] at hv
+  rcases hf : flags[j]? with _ | f
+  · simp [hf] at hv
+  · simp [hf] at hv; subst hv; exact init_inv f
+
 end Pox.CoopLock
